@@ -37,16 +37,17 @@ const (
 )
 
 type task struct {
-	ops     int // kernel requests handled for this task so far
-	id      int
-	name    string
-	state   tstate
-	pending Rep
-	retry   *Req // re-attempt this request when scheduled (lock acquisition races)
-	waitOp  Op
-	waitObj uint64
-	waitN   int64
-	tr      transportTask
+	ops      int // kernel requests handled for this task so far
+	id       int
+	name     string
+	state    tstate
+	pending  Rep
+	retry    *Req // re-attempt this request when scheduled (lock acquisition races)
+	waitOp   Op
+	waitObj  uint64
+	waitN    int64
+	waitDesc string // OpPoll: the channel operation the task is parked in
+	tr       transportTask
 }
 
 type mutexSt struct {
@@ -198,13 +199,26 @@ func (k *Kernel) handle(t *task, r *Req) {
 	t.pending = Rep{}
 	t.ops++
 	// (a final WaitGroup.Done is bookkeeping of a task whose work is over, like its exit)
-	if k.afterRoot && r.Op != OpExit && !(r.Op == OpWGAdd && r.A < 0) && t != k.root {
+	// (... and a task parked in a channel operation that looks again is waiting, not working)
+	if k.afterRoot && r.Op != OpExit && r.Op != OpPoll && !(r.Op == OpWGAdd && r.A < 0) && t != k.root {
 		k.res.WorkAfterRoot++
 		if len(k.res.OpsAfterRoot) < 8 {
 			k.res.OpsAfterRoot = append(k.res.OpsAfterRoot, fmt.Sprintf("t%d(%s) %s", t.id, t.name, r.Op))
 		}
 	}
+	if r.Op != OpPoll {
+		// Channels are not modelled: a task whose blocking channel operation was not ready parks
+		// in OpPoll and looks again whenever any other task has done anything (only another
+		// task's action can make the channel ready, and every action is followed by a kernel
+		// operation of that task, at the latest its exit).
+		k.wakePollers()
+	}
 	switch r.Op {
+	case OpPoll:
+		k.trace(t, r.Op, r.S)
+		k.block(t, r.Op, 0)
+		t.waitDesc = r.S
+		k.res.Probes["channel_waits"]++
 	case OpSpawn:
 		// the facade has already registered the child (k.newTask) - r.A is its id
 		k.trace(t, r.Op, fmt.Sprintf("-> t%d", r.A))
@@ -479,6 +493,15 @@ func (k *Kernel) schedule() *task {
 				k.fireEvent()
 				continue
 			}
+			if k.onlyChannelWaitersLeft() {
+				// the call under test has returned; what is left are goroutines waiting for a channel
+				// nobody will serve any more. In a Go program that is a leak (the goroutines sit there
+				// until the process ends), not a hang: unwind them and finish normally.
+				k.res.Probes["goroutines_left_waiting_on_a_channel"]++
+				k.trace(nil, OpPoll, "leftover channel waiters unwound")
+				k.aborting = true
+				return nil
+			}
 			k.deadlock()
 			return nil
 		}
@@ -562,6 +585,20 @@ func (k *Kernel) schedule() *task {
 	}
 }
 
+// onlyChannelWaitersLeft reports whether the root task has finished and every task that is
+// still blocked is parked in a channel operation.
+func (k *Kernel) onlyChannelWaitersLeft() bool {
+	if k.root == nil || k.root.state != tDead {
+		return false
+	}
+	for _, t := range k.tasks {
+		if t.state == tBlocked && t.waitOp != OpPoll {
+			return false
+		}
+	}
+	return true
+}
+
 func (k *Kernel) deadlock() {
 	var b []string
 	for _, t := range k.tasks {
@@ -569,6 +606,9 @@ func (k *Kernel) deadlock() {
 			what := fmt.Sprintf("t%d(%s) on %s", t.id, t.name, t.waitOp)
 			if t.waitObj != 0 {
 				what += fmt.Sprintf("#%d", k.oid(t.waitObj))
+			}
+			if t.waitOp == OpPoll && t.waitDesc != "" {
+				what += " (" + t.waitDesc + ")"
 			}
 			b = append(b, what)
 		}
@@ -579,7 +619,18 @@ func (k *Kernel) deadlock() {
 	k.aborting = true
 }
 
+// wakePollers makes every task parked in OpPoll runnable again (it re-examines its channel).
+func (k *Kernel) wakePollers() {
+	for _, t := range k.tasks {
+		if t.state == tBlocked && t.waitOp == OpPoll {
+			t.state = tRunnable
+			t.pending = Rep{}
+		}
+	}
+}
+
 func (k *Kernel) fireEvent() {
+	k.wakePollers()
 	e := heap.Pop(&k.events).(event)
 	if e.at > k.now {
 		k.now = e.at
